@@ -313,6 +313,9 @@ def body(led):
     from . import py_assembly as A
     A.check_matrix(led, 'calc_kT', ['fkL_num', 'fkG_num'], with_conn=True, state=True)
     A.check_matrix(led, 'calc_fint', ['calc_fint'], with_conn=True, state=True)
+    # the way Analysis.static calls them: with the load level (no prescribed amplitudes in an assembly: the result does not depend on it)
+    A.check_matrix(led, 'calc_kT', ['fkL_num', 'fkG_num'], with_conn=True, state=True, extra_kwargs={'inc': real('inc_level')})
+    A.check_matrix(led, 'calc_fint', ['calc_fint'], with_conn=True, state=True, extra_kwargs={'inc': real('inc_level')})
 
 
 def main():
